@@ -4,7 +4,7 @@ CONSTANTS
   DrainPriority = TRUE
   MCConfig = 0
 SPECIFICATION TraceSpec
-INVARIANT QueueInvariants
+INVARIANTS AtMostOnce ExactlyOnce LaneBound BgBound CompletionOnce OutputBeforeCompletion StatusTable ChildrenReaped
 CONSTRAINT Track
 POSTCONDITION Post
 CHECK_DEADLOCK FALSE
